@@ -79,6 +79,7 @@ CONFIGS = {
     "o2": ["gcc", "-std=gnu11", "-O2", "-g", "-DNDEBUG", "-mtune=native"],
     "o0": ["gcc", "-std=gnu11", "-O0", "-g"],
     "native": ["gcc", "-std=gnu11", "-O2", "-g", "-DNDEBUG", "-march=native"],
+    "tsan": ["gcc", "-std=gnu11", "-O1", "-g", "-fsanitize=thread", "-fno-omit-frame-pointer"],
 }
 
 LIB_SOURCES = ["varintTagged.c", "varintExternal.c", "varintExternalBigEndian.c", "varintChained.c",
@@ -294,6 +295,7 @@ def run_harness(exe, ops, workdir, tag, env_extra=None, timeout=3600, wrapper=No
     env = dict(os.environ)
     env["ASAN_OPTIONS"] = "detect_leaks=0:abort_on_error=0:allocator_may_return_null=1:max_allocation_size_mb=4096"
     env["UBSAN_OPTIONS"] = "print_stacktrace=0:halt_on_error=1"
+    env["TSAN_OPTIONS"] = "halt_on_error=1:second_deadlock_stack=1:exitcode=66"
     if env_extra:
         env.update(env_extra)
     restarts = 0
@@ -322,6 +324,9 @@ def run_harness(exe, ops, workdir, tag, env_extra=None, timeout=3600, wrapper=No
             m2 = re.search(r"(READ|WRITE) of size", err)
             if m2:
                 kind += ":" + m2.group(1).lower()
+        elif "ThreadSanitizer" in err:
+            m = re.search(r"WARNING: ThreadSanitizer: ([\w -]+)", err)
+            kind = "tsan:" + (m.group(1).strip().replace(" ", "-") if m else "report")
         elif "runtime error:" in err:
             m = re.search(r"runtime error: (.*)", err)
             kind = "ubsan:" + (m.group(1)[:80].replace(" ", "_") if m else "ub")
